@@ -4,7 +4,7 @@
    the 5-byte buffer and the slice returned) is the model's encrypt_server_header, with
    InnerCrypto::apply as the external call. *)
 From Coq Require Import List NArith Lia.
-From WS Require Import lib.Bytes lib.Res lib.StepLoop Consts Steps model.Rc4 model.Wrath.
+From WS Require Import lib.Bytes lib.Res lib.StepLoop Consts Steps spec.Rc4 model.Rc4 model.Wrath proofs.Rc4 proofs.Wrath.
 Import ListNotations.
 Local Open Scope N_scope.
 
@@ -53,4 +53,23 @@ Proof.
     pose proof (apply_keystream_length _ _ _ _ E) as L. cbn [length] in L.
     destruct out as [|o0 [|o1 [|o2 [|o3 [|]]]]]; try discriminate L.
     reflexivity.
+Qed.
+
+(* property level, about the translated function: a header is 4 bytes when size <= 0x7FFF and 5 bytes
+   (marker bit set in the first plaintext byte) when 0x7FFF < size <= 0x7FFFFF; the bytes handed out
+   are the plaintext layout xor the next keystream bytes, and the cipher advances by exactly that many *)
+Theorem wrath_source_layout : forall se size opcode, wf_se se -> size <= 0x7FFFFF -> opcode < 65536 ->
+  let plain := if size <=? 0x7FFF then [size / 256; size mod 256; opcode mod 256; opcode / 256]
+               else [N.lor (size / 65536) 128; (size / 256) mod 256; size mod 256; opcode mod 256; opcode / 256] in
+  exists r' buf' wire,
+    tr_wrath_encrypt_server_header apply_view (se_rc4 se) (se_buf se) size opcode = Some ((r', buf'), wire) /\
+    length wire = length plain /\
+    xor_bytes wire (ks (se_rc4 se) (length wire)) = plain /\
+    r' = adv (se_rc4 se) (length wire).
+Proof.
+  intros se size opcode Hw Hs Ho. cbv zeta.
+  destruct (layout se size opcode Hw Hs Ho) as (se' & wire & E & _ & HL & HX & HA & _).
+  exists (se_rc4 se'), (se_buf se'), wire.
+  rewrite wrath_encrypt_server_header_translated by (destruct Hw as [_ Hb]; exact Hb).
+  rewrite E. cbn [enc_view]. auto.
 Qed.
